@@ -94,7 +94,7 @@ fn err_of_panic(extra: &mut Vec<Sx>, what: &str) -> Sx {
 /// returns (observation, extras, trace)
 pub fn run_case(case: &Sx) -> (Sx, Sx, Sx) {
     let c = case.clone();
-    let r = in_fresh_thread(move || {
+    let r = in_fresh_thread_limited(move || {
         let l = c.as_lst();
         let mut obs = vec![sym("obs")];
         let mut extra = vec![sym("extra")];
@@ -171,7 +171,7 @@ pub fn run_case(case: &Sx) -> (Sx, Sx, Sx) {
         match fin { Ok((f, a)) => { obs.push(f); obs.push(a); } Err(_) => { let e = err_of_panic(&mut extra, "again"); obs.push(e); } }
         (lst(obs), lst(extra), lst(tr))
     });
-    r.unwrap_or_else(|_| (sym("harness-thread-panic"), sym("harness-thread-panic"), lst(vec![sym("trace")])))
+    r.unwrap_or_else(|e| if e.0 == "timeout" { (timeout_obs(), lst(vec![sym("extra"), sym("timeout")]), lst(vec![sym("trace")])) } else { (sym("harness-thread-panic"), sym("harness-thread-panic"), lst(vec![sym("trace")])) })
 }
 
 fn flags() -> Sx {
